@@ -122,6 +122,11 @@ def core_templates():
     ts.append(T("void_in_tuple", [fn("vf", [("x", "int"), ("y", "int")], "int", body)], "vf", ["int", "int"], {"C02"}))
     body = blk([("let", "a", ("arr", [("nil",), ("nil",)])), ("expr", ("push", V("a"), ("nil",)))], bin_("+", ("len", V("a")), x))
     ts.append(T("void_in_array", [fn("vf", [("x", "int")], "int", body)], "vf", ["int"], {"C02"}))
+    # ---- `return <call of a void function>` in a helper that is called in the middle of an aggregate (operand stack discipline)
+    log = fn("emit_line", [("v", "int")], "void", blk([("print", V("v"))], None))
+    wrap = fn("wrap", [("v", "int")], "void", blk([("return", ("call", "emit_line", [V("v")]))], None))
+    body = blk([], ("arr", [x, blk([("expr", ("call", "wrap", [y]))], y), z]))
+    ts.append(T("return_void_call_in_aggregate", [log, wrap, fn("vf", [("x", "int"), ("y", "int"), ("z", "int")], ("array", "int"), body)], "vf", ["int"] * 3, {"C02", "C01"}))
     # ---- if as expression in both branches, nested
     body = blk([], ("if", bin_("<", x, y), ("if", bin_("<", y, z), N(1), N(2)), ("if", bin_("==", x, z), N(3), N(4))))
     ts.append(T("nested_if", [fn("vf", [("x", "int"), ("y", "int"), ("z", "int")], "int", body)], "vf", ["int"] * 3, {"C02"}))
@@ -188,6 +193,22 @@ def try_templates():
         for sa in shapes:
             body = blk([("let", "r", ("call", "helper", [V("a")]))], ("if", ("is_some", V("r")), N(1), N(2)) if kind == "option" else N(7))
             ts.append(T("try_in_helper_%s_%s" % (kind, sa[1]), [helper, fn("vf", [("a", ok_t)], "int", body)], "vf", [sa], {"C23"}))
+    # payloads of different void-ness: `?` on a result<void, int> inside a function returning result<int, int>, and the other way round
+    x, y = V("x"), V("y")
+    rv, ri = ("result", "void", "int"), ("result", "int", "int")
+    chk = fn("chk", [("v", "int")], rv, blk([], ("if", bin_(">", V("v"), N(50)), ("err", V("v")), ("ok", ("nil",)))))
+    body = blk([("expr", ("try", ("call", "chk", [x])))], ("ok", bin_("+", x, y)))
+    ts.append(T("try_void_payload_statement", [chk, fn("vf", [("x", "int"), ("y", "int")], ri, body)], "vf", ["int", "int"], {"C23"}))
+    body = blk([("var", "s", N(0)),
+                ("forrange", "i", N(2), [("expr", ("try", ("call", "chk", [bin_("+", x, V("i"))]))), ("assign", V("s"), "+=", bin_("+", x, V("i")))])],
+               ("ok", bin_("+", V("s"), y)))
+    ts.append(T("try_void_payload_in_loop", [chk, fn("vf", [("x", "int"), ("y", "int")], ri, body)], "vf", ["int", "int"], {"C23"}))
+    body = blk([("let", "t", ("tuple", [x, ("try", ("call", "chk", [y])), bin_("+", x, N(1))]))], ("ok", N(3)))
+    ts.append(T("try_void_payload_in_tuple", [chk, fn("vf", [("x", "int"), ("y", "int")], ri, body)], "vf", ["int", "int"], {"C23"}))
+    parse = fn("parse", [("v", "int")], ri, blk([], ("if", bin_("<", V("v"), N(0)), ("err", V("v")), ("ok", bin_("*", V("v"), N(2))))))
+    body = blk([("let", "n", ("try", ("call", "parse", [x]))), ("print", V("n")), ("let", "m", ("try", ("call", "parse", [bin_("-", V("n"), y)]))), ("print", V("m"))],
+               ("ok", ("nil",)))
+    ts.append(T("try_int_payload_in_void_function", [parse, fn("vf", [("x", "int"), ("y", "int")], rv, body)], "vf", ["int", "int"], {"C23"}))
     return ts
 
 
